@@ -47,7 +47,7 @@ def branch(draw, name, npar_key, horizon, n_in=1):
             ins.append(refs[0])
         kind = draw(st.sampled_from(["sum", "acc", "count", "timer"]))
         node = {"id": f"b{j}", "op": "node", "ins": ins, "out": "TS[int]", "coef": [draw(st.integers(1, 3)) for _ in ins],
-                "bias": draw(st.integers(0, 50)), "log_inputs": False}
+                "bias": draw(st.integers(0, 50)), "log_inputs": True}
         if kind == "timer":
             node["fn"] = "count"
             node["sched"] = {"tick": [["s", "rel", draw(st.integers(1, min(5, horizon))), None]]}
@@ -316,6 +316,15 @@ def check(case, ctx) -> Result:
         at_switch = iv is not None and ivs[iv][1] == tdiff
         res.violations.append(Viol("switch_stream_differs", f"switch output {got[max(0, k - 1):k + 3]} but the selected branches alone give {exp[max(0, k - 1):k + 3]} (first difference at tick #{k}, t={tdiff}, interval {ivs[iv] if iv is not None else None}; intervals {ivs[:8]})",
                                    dict(feats, returned_to_earlier_key=returned, at_switch_cycle=at_switch)))
+    # ---- what a branch node reads on its inputs is coherent: modified <=> last_modified_time is this cycle (a held input sampled at
+    # the switch reads modified with the switch time as its last-modified-time), and a modified input is valid
+    for e in resp["trace"]:
+        if e[0] == "ev" and e[1] != "r" and len(e) > 6 and e[6]:
+            bad = next((i for i in e[6] if isinstance(i, dict) and isinstance(i.get("m"), bool) and isinstance(i.get("lmt"), int) and
+                        ((i["m"] and i["lmt"] != e[4]) or (not i["m"] and i["lmt"] == e[4]) or (i["m"] and not i.get("v")))), None)
+            if bad is not None:
+                res.violations.append(Viol("input_flags_incoherent", f"node {e[3]} in {e[1]} at t={e[4]} reads an input with modified={bad['m']} valid={bad.get('v')} last_modified_time={bad['lmt']}", dict(feats, sampled_cycle=any(ts == e[4] for _, ts, _ in ivs))))
+                break
     # ---- deselected instances are silent; one child at a time
     alive = set()
     max_alive = 0
